@@ -54,6 +54,7 @@ var (
 )
 
 func c08Geom(h c08Hist) {
+	c08Foot = h.Foot
 	c08U = 1
 	c08SnapSize = 40
 	if h.Big {
@@ -74,7 +75,8 @@ type c08Hist struct {
 	// End = close (Close()) | cancel (context cancelled, Wait, Close()) | reset (a new snapshot
 	// writer replaces it: dataSetRdb.Close) | del (DelRunId: dataSetRdb.Close); then a segment
 	// writer and one rotating append. Only instants from the ending on are frozen.
-	End string `json:"end,omitempty"`
+	Foot string `json:"foot,omitempty"` // last 8 snapshot bytes: "" matching CRC-64 | "zero" | "bad"
+	End  string `json:"end,omitempty"`
 	K   int64  `json:"k,omitempty"`
 	Base int64  `json:"base"` // first offset: 95 (names 95,104,113 cross the 2->3 digit boundary: lexical != numeric order) | 100
 }
@@ -83,6 +85,9 @@ func (h c08Hist) String() string {
 	s := fmt.Sprintf("snap=%s,app=%s,gc=%v,tail=%s,base=%d", h.Snap, h.App, h.GC, h.Tail, h.Base)
 	if h.Snap == "part" {
 		s += fmt.Sprintf(",end=%s,k=%d", h.End, h.K)
+	}
+	if h.Foot != "" {
+		s += ",foot=" + h.Foot
 	}
 	if h.Big {
 		s += ",big"
@@ -99,6 +104,11 @@ type c08Scenario struct {
 	Pos    int     `json:"pos"`    // alter: byte position
 	Xor    int     `json:"xor"`    // alter: xor mask (0 with Grow != 0)
 	Grow   int     `json:"grow,omitempty"` // alter: change the file length by this many bytes instead (-1, -8, +1)
+	// family "dir" (directory-level faults on the final image): the files whose bit is set in
+	// Mask (names sorted) are missing; with MvSnap the snapshot file is renamed to offset SnapTo
+	Mask   int   `json:"mask,omitempty"`
+	MvSnap bool  `json:"mv_snap,omitempty"`
+	SnapTo int64 `json:"snap_to,omitempty"`
 }
 
 func c08AofByte(hist int, off int64) byte { return byte(41*(2*(hist%3)) + int(off%41)) }
@@ -118,9 +128,18 @@ func c08SnapBytes(hist int) []byte {
 	for i := int64(0); i < c08SnapSize-8; i++ {
 		b[i] = byte(41*(2*(hist%3)+1) + int(i%41))
 	}
-	binary.LittleEndian.PutUint64(b[c08SnapSize-8:], ref.RDBCRC64(0, b[:c08SnapSize-8]))
+	switch c08Foot {
+	case "zero": // source running with rdbchecksum no
+		binary.LittleEndian.PutUint64(b[c08SnapSize-8:], 0)
+	case "bad":
+		binary.LittleEndian.PutUint64(b[c08SnapSize-8:], ref.RDBCRC64(0, b[:c08SnapSize-8])^0x5a5a)
+	default:
+		binary.LittleEndian.PutUint64(b[c08SnapSize-8:], ref.RDBCRC64(0, b[:c08SnapSize-8]))
+	}
 	return b
 }
+
+var c08Foot string // trailer shape of the history being recorded / checked (c08Geom)
 
 // ---------------------------------------------------------------------------
 // recording a history
@@ -282,7 +301,11 @@ func c08Record(t *testing.T, h c08Hist, root string) c08Recorded {
 			chunks = []int64{9, 9, 3}
 		case "b":
 			chunks = []int64{5, 4, 9, 1}
-		default:
+		case "d": // one non-empty segment (still being written)
+			chunks = []int64{5}
+		case "e": // no append at all: the snapshot and one EMPTY segment
+			chunks = nil
+		default: // "c": rotated exactly once, two non-empty segments
 			chunks = []int64{20, 2}
 		}
 		for _, n := range chunks {
@@ -612,6 +635,7 @@ func (c *c08Check) readSnap(st *Storer, id string, hist int, left, size int64) {
 	r.mu.Lock()
 	got := append([]byte(nil), r.got...)
 	r.mu.Unlock()
+	werr := r.wait.Error()
 	c.close(r)
 	want := c08SnapBytes(hist)
 	for i := range got {
@@ -626,8 +650,14 @@ func (c *c08Check) readSnap(st *Storer, id string, hist int, left, size int64) {
 	}
 	c.served += int64(len(got))
 	if int64(len(got)) < size {
+		if c.lenient && werr != nil {
+			c.refused++ // handed out, then failed with an error: a refusal
+			return
+		}
 		if c.lenient {
-			c.refused++
+			// a stored snapshot (renamed = complete) was handed out after the verification at open and
+			// then neither delivered nor failed: the reader polls for ever
+			c.fail("a stored snapshot is handed out but neither delivered completely nor failed", "rdb-handed-out-not-delivered", map[string]interface{}{"run_id": id, "rdb": []int64{left, size}, "served": len(got)})
 			return
 		}
 		c.fail("a snapshot that is not completely present is offered for replay", "rdb-incomplete-offered", map[string]interface{}{"run_id": id, "rdb": []int64{left, size}, "served": len(got)})
@@ -652,7 +682,8 @@ func (c *c08Check) checkID(id string, hist int, minLeft, maxRight int64) {
 		c.fail("the reported range is not a range", "range-shape", nil)
 		return
 	}
-	if !c.lenient && (r > maxRight || (l >= 0 && l < minLeft)) { // (an altered file length shows in the range; what counts there is that nothing wrong is served)
+	snapOnly := rl >= 0 && l == rl && r == rl && len(st.VerifSegBounds()) == 0 // a snapshot and no log: range (rdb.left, rdb.left)
+	if !c.lenient && !snapOnly && (r > maxRight || (l >= 0 && l < minLeft)) { // (an altered file length shows in the range; what counts there is that nothing wrong is served)
 		c.fail("the reported range exceeds the bytes the source sent", "beyond-source", map[string]interface{}{"run_id": id, "sent": []int64{minLeft, maxRight}})
 		return
 	}
@@ -835,6 +866,32 @@ func c08Histories(tier string) []c08Hist {
 			}
 		}
 	}
+	// logs that rotated exactly once (c), never (d) or hold one empty segment (e): images with a
+	// snapshot and two / one / no non-empty segment, frozen inside the multi-file removals of a
+	// reset (new snapshot, DelRunId) and a collector pass, and the directory-level family
+	if tier != "thorough" {
+		for _, app := range []string{"c", "d", "e"} {
+			for _, base := range []int64{100, 95, 0} {
+				for _, tail := range []string{"none", "close", "resnap", "delnew"} {
+					if base != 100 && (tail == "resnap" || tail == "delnew") && app != "c" {
+						continue
+					}
+					out = append(out, c08Hist{Snap: "full", App: app, GC: false, Tail: tail, Base: base})
+				}
+			}
+			out = append(out, c08Hist{Snap: "full", App: app, GC: true, Tail: "more", Base: 100})
+		}
+	} else {
+		for _, app := range []string{"d", "e"} {
+			for _, base := range []int64{100, 95, 0} {
+				for _, gc := range []bool{false, true} {
+					for _, tail := range []string{"none", "close", "more", "rename", "delnew", "resnap"} {
+						out = append(out, c08Hist{Snap: "full", App: app, GC: gc, Tail: tail, Base: base})
+					}
+				}
+			}
+		}
+	}
 	// owner-side endings of a snapshot reception at every received length k < size
 	for _, end := range []string{"close", "cancel", "reset", "del"} {
 		for k := int64(0); k < 40; k++ {
@@ -846,6 +903,13 @@ func c08Histories(tier string) []c08Hist {
 				base = 0
 			}
 			out = append(out, c08Hist{Snap: "part", End: end, K: k, Tail: "none", App: "a", Base: base})
+		}
+	}
+	// snapshot trailer shapes: all-zero (rdbchecksum no) and a wrong checksum
+	for _, foot := range []string{"zero", "bad"} {
+		out = append(out, c08Hist{Snap: "full", App: "a", GC: false, Tail: "close", Base: 95, Foot: foot})
+		if tier == "thorough" {
+			out = append(out, c08Hist{Snap: "full", App: "b", GC: true, Tail: "resnap", Base: 100, Foot: foot}, c08Hist{Snap: "full", App: "a", GC: false, Tail: "none", Base: 0, Foot: foot})
 		}
 	}
 	// large files (segments 9900 B, snapshot 11000 B): crash family with sampled torn writes,
@@ -943,7 +1007,31 @@ func runC08(t *testing.T, rep *mc.Reporter) {
 			return c08CheckImage(t, im, rec, v, v, c08Shape(rec.log, scn.N, scn.Cut), map[string]interface{}{"crash_before": fmt.Sprint(opAt(rec.log, scn.N)), "cut": scn.Cut})
 		case "clean-crc":
 			im := vos.Build(rec.log, len(rec.log), -1)
-			return c08CheckImage(t, im, rec, true, false, "clean-crc", nil)
+			// a snapshot whose trailer is not a matching checksum may be refused at open
+			return c08CheckImage(t, im, rec, true, scn.Hist.Foot != "", "clean-crc", nil)
+		case "dir":
+			im := vos.Build(rec.log, len(rec.log), -1)
+			names := c08FileNames(im)
+			var gone []string
+			for i, p := range names {
+				if scn.Mask&(1<<uint(i)) != 0 {
+					im.Drop(p)
+					gone = append(gone, p)
+				}
+			}
+			shape := "files-missing"
+			extra := map[string]interface{}{"missing": gone}
+			if scn.MvSnap {
+				shape = "snapshot-at-other-offset"
+				for _, p := range names {
+					if strings.HasSuffix(p, ".rdb") {
+						to := fmt.Sprintf("%s/%d_%d.rdb", filepath.Dir(p), scn.SnapTo, c08SnapSize)
+						im.Move(p, to)
+						extra["snapshot_renamed"] = p + " -> " + to
+					}
+				}
+			}
+			return c08CheckImage(t, im, rec, false, false, shape, extra)
 		default:
 			im := vos.Build(rec.log, len(rec.log), -1)
 			what := fmt.Sprintf("%s[%d]^%#x", scn.File, scn.Pos, scn.Xor)
@@ -1054,6 +1142,28 @@ func runC08(t *testing.T, rep *mc.Reporter) {
 			rep.Count("distinct_images", images)
 			rep.Count("duplicate_images", dups)
 		}
+		// family 3: directory-level faults on the final image of small histories: every subset
+		// of its files missing (an interrupted multi-file removal in ANY order, a lost file),
+		// and the snapshot file at another offset than the first segment (before / inside /
+		// at the end of / beyond the log). Same read-back oracle.
+		if h.Snap == "full" && !h.GC && !h.Big && (h.Tail == "none" || h.Tail == "close") {
+			final := vos.Build(rec.log, len(rec.log), -1)
+			names := c08FileNames(final)
+			if len(names) <= 6 {
+				for mask := 1; mask < 1<<uint(len(names)); mask++ {
+					run(c08Scenario{Hist: h, Family: "dir", Mask: mask}, rec)
+				}
+				hi := rec.maxRight["runA"]
+				for _, to := range []int64{h.Base - 3, h.Base + 3, h.Base + 9*c08U, hi, hi + 5} {
+					if to < 0 || to == h.Base {
+						continue
+					}
+					for _, mask := range []int{0, 1} { // with all segments / without the first file
+						run(c08Scenario{Hist: h, Family: "dir", Mask: mask, MvSnap: true, SnapTo: to}, rec)
+					}
+				}
+			}
+		}
 		// family 2: alterations of cleanly closed files, verification on
 		if h.Tail == "close" && h.Snap != "fail" && (tier == "thorough" || h.App == "a" || h.Big) {
 			run(c08Scenario{Hist: h, Family: "clean-crc"}, rec)
@@ -1104,6 +1214,15 @@ func opAt(log []vos.Op, n int) string {
 		return "<end of history>"
 	}
 	return log[n].String()
+}
+
+func c08FileNames(im *vos.Image) []string {
+	var names []string
+	for p := range im.Files() {
+		names = append(names, p)
+	}
+	sort.Strings(names)
+	return names
 }
 
 func c08Alter(im *vos.Image, file string, pos int, mask byte) {
